@@ -2,7 +2,7 @@
    Gallina translations of the decision functions (DESIGN.md appendix B).
    A site outside the fragment falls back on the reference definition and is flagged [translated_* = false]. *)
 Require Import Verif.Model.Base Verif.Model.Decision Verif.Model.GoSem Verif.Model.LayoutRef.
-Require Verif.Gen.Escapes Verif.Gen.Colors.
+Require Verif.Gen.Escapes Verif.Gen.Colors Verif.Gen.LevelNames.
 
 (* PrintCtx.Begin  (returns s.buf; None = panic) *)
 Definition pc_begin (s_jsonMode : bool) (s_buf : bytes) : option bytes :=
@@ -150,6 +150,25 @@ Definition print_logger_name (f_add_string : bytes -> bytes -> bytes -> bytes) (
     end
   else Some (pc_buf).
 Definition translated_print_logger_name := true.
+
+(* Entry.printSeverity  (returns pc.buf; None = panic) *)
+   (* argument not kept by the model (declared): pc *)
+Definition print_severity (f_add_string : bytes -> bytes -> bytes -> bytes) (f_wrap_to : bytes -> Z -> Z -> bytes -> bytes) (f_wrap_rune : bytes -> Z -> Z -> bytes) (m_shortTagMap : list (Z * list (Z * bytes))) (m_levelToString : list (Z * bytes)) (g_levelOutputWidth : Z) (pc : unit) (pc_noColor pc_jsonMode : bool) (pc_lvl pc_clr pc_bg : Z) (pc_buf : bytes) : option bytes :=
+  if pc_noColor
+  then let pc_buf := f_add_string pc_buf [x6c;x65;x76;x65;x6c] (LevelNames.level_string m_levelToString pc_lvl) in
+  match pc_append_comma pc_jsonMode pc_buf with
+    | None => None
+    | Some pc_buf => Some (pc_buf)
+    end
+  else match LevelNames.short_tag m_shortTagMap m_levelToString pc_lvl g_levelOutputWidth with
+    | None => None
+    | Some r1_ => let pc_buf := f_wrap_to pc_buf pc_clr pc_bg (f_wrap_rune r1_ 91 93) in
+      match pc_append_byte pc_buf 32 with
+      | None => None
+      | Some pc_buf => Some (pc_buf)
+      end
+    end.
+Definition translated_print_severity := true.
 
 (* Entry.printImpl  (the statements after the blank-line rule; returns (deliveries, context); None = panic) *)
    (* argument not kept by the model (declared): pc.kvps *)
